@@ -80,10 +80,10 @@ const unsupportedContentEncoding = "Unsupported content encoding, hot reload scr
 
 func (h *Handler) modifyResponse(r *http.Response) error {
 	log := h.log.With(slog.String("url", r.Request.URL.String()))
-	if r.Request.Method == http.MethodHead {
-		// A response to a HEAD request has no body: there is nothing to insert the script into, and its
-		// Content-Length describes the resource.
-		log.Debug("Skipping response modification because the request method is HEAD")
+	if r.Request.Method == http.MethodHead || r.StatusCode == http.StatusNoContent || r.StatusCode == http.StatusNotModified {
+		// A response to a HEAD request, and a 204 or 304 response, has no body: there is nothing to insert the
+		// script into, and its Content-Length (if any) describes the resource.
+		log.Debug("Skipping response modification because the response has no body", slog.String("method", r.Request.Method), slog.Int("status", r.StatusCode))
 		return nil
 	}
 	if r.Header.Get("templ-skip-modify") == "true" {
